@@ -34,6 +34,7 @@ CONFIG = {
 _installed = False
 _depth = 0
 _touched: "weakref.WeakSet" = weakref.WeakSet()
+PRODUCT_STACK: list = []  # (index, first, second) of the product_by_order calls in progress
 REPO = os.path.realpath(os.environ.get("VERIF_REPO", "/repo"))
 
 
@@ -48,6 +49,7 @@ def reset():
     VIOLATIONS.clear()
     _depth = 0
     _touched.clear()
+    PRODUCT_STACK.clear()
 
 
 def drain():
@@ -241,7 +243,16 @@ def _install_product(ser):
         return True
 
     contracted = icontract.ensure(cauchy_sum_matches, error=ProductBroken)(orig)
-    ser.product_by_order = contracted
+
+    @functools.wraps(orig)
+    def product_by_order(index, first, second, operator=None, hermitian=False):
+        PRODUCT_STACK.append((tuple(index), first, second))
+        try:
+            return contracted(index, first, second, operator=operator, hermitian=hermitian)
+        finally:
+            PRODUCT_STACK.pop()
+
+    ser.product_by_order = product_by_order
 
 
 # ---- solver monitors -----------------------------------------------------------------------------
